@@ -62,6 +62,12 @@ def _linalg_args(lem, rng):
         n = int(rng.integers(0, 5))
         qq = rng.integers(0, 5, size=n + 1)
         return {'q': qq, 'n': n, 'c': int(rng.integers(0, 6)), 'k': int(rng.integers(0, max(n, 1)))}
+    if name == 'mask_ext':
+        n = int(rng.integers(0, 7))
+        mk = gens.bits(rng, n + 2)
+        m2 = mk * rng.integers(1, 4, size=n + 2)
+        m2[n:] = gens.bits(rng, 2)
+        return {'m': mk, 'm2': m2, 'n': n}
     if name == 'mask_index':
         n = int(rng.integers(0, 7))
         mk = gens.bits(rng, n + 2)
